@@ -2,7 +2,7 @@
    the writer proxy's ack_base, and everything below ack_base is known to the C03 history summary
    (received into the cache or declared unavailable by GAP / HEARTBEAT). *)
 From Coq Require Import List ZArith Lia Bool.
-From RD Require Import C03.Model C03.Proxy C03.Sim C03.Proofs C01.Model C01.Proofs C01.Core C01.Theorems.
+From RD Require Import C03.Model C03.Proxy C03.Oracle C03.Sim C03.Proofs C01.Model C01.Proofs C01.Core C01.Theorems.
 Import ListNotations.
 Open Scope Z_scope.
 
@@ -235,7 +235,9 @@ Proof.
   fold ops in Hp. rewrite cs_r_run in Hp. cbn [cinit cs_r] in Hp.
   specialize (I1 (e_w e)). rewrite Hp in I1.
   destruct (sfinal (sinit (c_matched c)) (init (c_matched c)) (sub_ops ops) (e_w e)) as [s|]; [|contradiction].
-  exists s. split; [reflexivity|]. intros m Hm. destruct I1 as [_ Hk _ _ _]. rewrite <- Hk.
+  exists s. split; [reflexivity|]. intros m Hm. destruct I1 as [[_ Hk _ _ _] _].
+  (* below ack_base everything is RECORDED by the proxy, hence DECLARED (C03: recorded_sub_known) *)
+  apply recorded_sub_known. rewrite <- Hk.
   unfold known_p, should_ignore_change. destruct (Z.ltb_spec m (p_base p)); [reflexivity|lia].
 Qed.
 
